@@ -206,6 +206,15 @@ fn finish<'a>(p: impl Parser<'a, &'a str, String, Ex<'a>> + 'a) -> BP<'a> {
 fn atom<'a>() -> impl Parser<'a, &'a str, String, Ex<'a>> + Clone {
     just::<_, &str, Ex>('x').to("x".to_string())
 }
+/// an atom that does NOT restore the position itself when it fails (filter leaves the cursor after the
+/// rejected token): the operator table has to do all the rewinding
+fn atom_nr<'a>() -> impl Parser<'a, &'a str, String, Ex<'a>> + Clone {
+    any::<&str, Ex>().filter(|c: &char| *c == 'x').to("x".to_string())
+}
+/// an operator symbol parser that does not restore the position itself when it fails
+fn sym_nr<'a>(s: char) -> impl Parser<'a, &'a str, char, Ex<'a>> + Clone {
+    any::<&str, Ex>().filter(move |c: &char| *c == s)
+}
 
 /// `atom.pratt(vec![op.boxed(), ..])`
 pub fn build_vec<'a>(ops: &[Op]) -> BP<'a> {
@@ -215,7 +224,7 @@ pub fn build_vec<'a>(ops: &[Op]) -> BP<'a> {
 
 /// `atom.boxed().pratt((op.boxed(), ..))` — tuple of boxed operators, boxed atom
 pub fn build_boxed_tuple<'a>(ops: &[Op]) -> Option<BP<'a>> {
-    let a = atom().boxed();
+    let a = atom_nr().boxed();
     Some(match ops {
         [o1] => finish(a.pratt((boxed_op(*o1),))),
         [o1, o2] => finish(a.pratt((boxed_op(*o1), boxed_op(*o2)))),
@@ -227,9 +236,21 @@ pub fn build_boxed_tuple<'a>(ops: &[Op]) -> Option<BP<'a>> {
 
 /// select the concrete (statically typed) operator for a kind
 macro_rules! pick {
-    ($o:expr, P) => { mk_pre!($o) };
-    ($o:expr, Q) => { mk_post!($o) };
-    ($o:expr, I) => { mk_inf!($o) };
+    ($o:expr, P) => {{
+        let o: Op = $o;
+        let s = o.sym;
+        prefix(o.bp, sym_nr(s), move |_, r: String, e: &mut MX<'a, '_>| format!("({s}{r}){}", sp(e)))
+    }};
+    ($o:expr, Q) => {{
+        let o: Op = $o;
+        let s = o.sym;
+        postfix(o.bp, sym_nr(s), move |l: String, _, e: &mut MX<'a, '_>| format!("({l}{s}){}", sp(e)))
+    }};
+    ($o:expr, I) => {{
+        let o: Op = $o;
+        let s = o.sym;
+        infix(if o.kind == Kind::InR { right(o.bp) } else { left(o.bp) }, sym_nr(s), move |l: String, _, r: String, e: &mut MX<'a, '_>| format!("({l}{s}{r}){}", sp(e)))
+    }};
 }
 fn kcode(k: Kind) -> u8 {
     match k {
@@ -242,9 +263,9 @@ fn kcode(k: Kind) -> u8 {
 /// `atom.pratt((op1, op2, ..))` with statically typed operators: one arm per sequence of operator
 /// kinds (39 tuple types for up to three operators).
 pub fn build_tuple<'a>(ops: &[Op]) -> Option<BP<'a>> {
-    macro_rules! t1 { ($a:ident) => { finish(atom().pratt((pick!(ops[0], $a),))) }; }
-    macro_rules! t2 { ($a:ident $b:ident) => { finish(atom().pratt((pick!(ops[0], $a), pick!(ops[1], $b)))) }; }
-    macro_rules! t3 { ($a:ident $b:ident $c:ident) => { finish(atom().pratt((pick!(ops[0], $a), pick!(ops[1], $b), pick!(ops[2], $c)))) }; }
+    macro_rules! t1 { ($a:ident) => { finish(atom_nr().pratt((pick!(ops[0], $a),))) }; }
+    macro_rules! t2 { ($a:ident $b:ident) => { finish(atom_nr().pratt((pick!(ops[0], $a), pick!(ops[1], $b)))) }; }
+    macro_rules! t3 { ($a:ident $b:ident $c:ident) => { finish(atom_nr().pratt((pick!(ops[0], $a), pick!(ops[1], $b), pick!(ops[2], $c)))) }; }
     let ks: Vec<u8> = ops.iter().map(|o| kcode(o.kind)).collect();
     Some(match ks.as_slice() {
         [0] => t1!(P),
@@ -474,7 +495,7 @@ pub fn run_unit(u: &PrattUnit, cx: &ShardCtx) -> UnitResult {
     r.counters.insert("unspecified_tables_skipped(postfix+infix same symbol)".into(), unspec);
     r.distinct_outcomes = distinct.len() as u64;
     r.desc = format!(
-        "Pratt: all tables of {:?} operators over {} symbols x {} powers x 4 kinds, on all {} strings over {:?} of length <= {}; forms: Vec<boxed op>, statically typed tuple (<= 3 ops), tuple of boxed ops with boxed atom (<= 4 ops)",
+        "Pratt: all tables of {:?} operators over {} symbols x {} powers x 4 kinds, on all {} strings over {:?} of length <= {}; forms: Vec<boxed op> (self-rewinding just() atom and symbols), statically typed tuple (<= 3 ops; atom and operator symbols are any().filter(..), which do not restore the position when they fail), tuple of boxed ops with a boxed non-rewinding atom (<= 4 ops)",
         u.ks, u.nsym, u.npow, ins.len(), alpha.iter().collect::<String>(), u.len
     );
     r
